@@ -97,6 +97,9 @@ func genC01(g *Gen) {
 		g.Do("bitmap.IndexRank128", L(w), key)
 	}
 
+	// (00) small-integer words, consecutive builds in collision-friendly orders (see c01SmallInts)
+	c01SmallInts(g)
+
 	// (0) held indexes over ASCENDING bitmap lengths 1..70, first thing in the run: an index that aliases
 	// a reused buffer shows when the buffer's capacity boundary is crossed, which depends on the order of sizes
 	for n := 1; n <= 70; n++ {
